@@ -83,6 +83,11 @@ CLAIMED["C10"]=dict(
    text="Exploration: 60k (quick) / 1M (thorough) generated programs + 96 repository files x 4 (8) perturbations. Found and fixed: any let written with `in` was formatted to unparseable text; comments after a rec group's `in` were dropped. Two recorded known findings: comments in positions the formatter never looks at are dropped (comments next to let bindings are still enforced), and broken tuples are re-indented by a second pass.",
    note="comment positions are classified by the harness (see safe_comments); only the loss of comments outside the enforced positions and a whitespace-only second-pass difference on a broken tuple are matched against the known findings; everything else is a violation",
    ref="6 C10")
+CLAIMED["C18"]=dict(
+   technique="round-trip property-based testing of the type printer: generated type sources (and the types inferred for generated programs) are checked by gluon to obtain the ArcType the system builds, rendered by TypeFormatter at 6 widths, parsed back with gluon's parser in two syntactic contexts, and compared as canonical trees",
+   text="Exploration: 8k (quick) / 250k (thorough) types x widths {20,40,60,80,120,200} x contexts {type alias right-hand side, binding annotation}: functions and foralls in argument position, implicit arguments, applications, tuples, records with operator fields and row tails, effect rows, declared variants/records, module records with type fields (definitions compared too). One recorded known finding: a record type field whose definition is a variant is printed in a form the grammar rejects.",
+   note="comparison is at parser level (names by last path component); generated sources the checker rejects are counted and skipped",
+   ref="6 C18")
 NOT_YET = {}
 def main():
     props=[json.loads(l) for l in open('/verif/properties.jsonl')]
